@@ -30,3 +30,39 @@ package database
 //@ func Transaction.Transact
 //@ modifies operations[*]
 //@ ensures ResultShape(result0) && result1 != nil
+
+// ---- references.go (C04): the reference index ---------------------------------
+
+// Representation invariant: no empty from-list, no empty per-spec map.
+//@ pred RefsInv(rs References) := rs != nil && (forall s: ReferenceSpec :: (s in rs) ==> (rs[s] != nil && len(rs[s]) > 0 && (forall t: string :: (t in rs[s]) ==> len(rs[s][t]) > 0)))
+//@ pred RefsAlloc(rs References) := forall s: ReferenceSpec :: (s in rs) ==> allocated(rs[s])
+//@ pred RefsDistinct(rs References) := forall s1: ReferenceSpec, s2: ReferenceSpec :: s1 != s2 && (s1 in rs) && (s2 in rs) ==> rs[s1] != rs[s2]
+
+// updateReference: exact single-entry update of the index, frame on every
+// other (spec, to), invariant preserved.
+//@ func (References).updateReference
+//@ requires RefsInv(rs) && RefsDistinct(rs) && RefsAlloc(rs)
+//@ ensures len(from) > 0 ==> ((spec in rs) && (to in rs[spec]) && rs[spec][to] == from)
+//@ ensures len(from) == 0 ==> !((spec in rs) && (to in rs[spec]))
+//@ ensures forall s: ReferenceSpec, t: string :: (s != spec || t != to) ==> (((s in rs) && (t in rs[s])) == old((s in rs) && (t in rs[s])))
+//@ ensures forall s: ReferenceSpec, t: string :: (s != spec || t != to) && old((s in rs) && (t in rs[s])) ==> rs[s][t] == old(rs[s][t])
+//@ ensures RefsInv(rs) && RefsDistinct(rs) && RefsAlloc(rs)
+
+// UpdateReferences applies every entry of `other`; the representation
+// invariant is preserved whatever the iteration order.
+//@ func (References).UpdateReferences
+//@ requires RefsInv(rs) && RefsDistinct(rs) && RefsAlloc(rs)
+//@ ensures RefsInv(rs) && RefsDistinct(rs) && RefsAlloc(rs)
+//@ loop 1 invariant RefsInv(rs) && RefsDistinct(rs) && RefsAlloc(rs)
+//@ loop 2 invariant RefsInv(rs) && RefsDistinct(rs) && RefsAlloc(rs)
+
+// GetReferences: exactly the entries of the row, for every location.
+//@ func (References).GetReferences
+//@ requires RefsAlloc(rs)
+//@ modifies nothing
+//@ ensures result != nil && fresh(result)
+//@ ensures forall s: ReferenceSpec :: (s in result) == ((s in rs) && s.ToTable == table && rs[s] != nil && (uuid in rs[s]))
+//@ ensures forall s: ReferenceSpec :: (s in result) ==> (result[s] != nil && (uuid in result[s]) && result[s][uuid] == rs[s][uuid] && len(result[s]) == 1)
+//@ loop 1 invariant refs != nil && fresh(refs)
+//@ loop 1 invariant forall s: ReferenceSpec :: (s in refs) == (visited(s) && (s in rs) && s.ToTable == table && rs[s] != nil && (uuid in rs[s]))
+//@ loop 1 invariant forall s: ReferenceSpec :: (s in refs) ==> (refs[s] != nil && fresh(refs[s]) && (uuid in refs[s]) && refs[s][uuid] == rs[s][uuid] && len(refs[s]) == 1)
